@@ -9766,7 +9766,7 @@ class Parser:
 
         index = self._index
         this = []
-        while True:
+        while self._curr:
             # The current token might be multiple words
             curr = self._curr.text.upper()
             key = curr.split(" ")
